@@ -387,8 +387,8 @@ func (s *SimRunner) Start(ctx ctxT) error {
 	if s.xlate {
 		// container-style launch: the plugin has its own root and sees the
 		// host's socket directory at /mnt/sock
-		s.r.W.Mkdir(plugRoot)
-		s.r.W.Mkdir(plugRoot + "/tmp")
+		s.r.W.MkdirAs(plugRoot, "harness")
+		s.r.W.MkdirAs(plugRoot+"/tmp", "harness")
 		s.cmd.SimOpts = &k.SpawnOpts{Chroot: plugRoot, Mounts: []k.Mount{{From: plugSock, To: s.tmpDir}}}
 		for i, kv := range s.cmd.Env {
 			if strings.HasPrefix(kv, plugin.EnvUnixSocketDir+"=") {
